@@ -39,7 +39,7 @@ def module_source(name, spec):
     L = [WHY, 'print("enter %s");' % name, 'var secret = "%s-secret";' % name, 'var val = "%s";' % name,
          "fn get_secret() { return secret; }",
          'try { print(main_only); } catch e { print("%s: importer globals are private"); }' % name,
-         'print("%s sees builtins " + String.from(type(1) == Num));' % name,
+         'print("%s sees builtins " + String.from(type(1) == Num) + " " + String.from(type(clock) == BuiltIn));' % name,
          'try { print("%s names " + String.from(StopIter) + String.from(Error) + String.from(TypeError) + String.from(ImportError) + String.from(Iter)); } catch e { print("%s cannot name a built-in class: " + e.context); }' % (name, name)]
     for t, site in spec["imports"]:
         L += import_stmt(name, t, site)
@@ -51,7 +51,9 @@ def module_source(name, spec):
 
 def import_stmt(owner, t, site):
     ok = 'print("%s sees " + %s.val);'
-    err = 'print("%s cannot import %s: " + why(e));' % (owner, t)
+    # the handler runs in the importer: the globals it reads must be the importer's, whatever module raised
+    # (the importer's global is read FIRST in the handler, before any call could re-synchronise the interpreter's notion of the running module)
+    err = 'print("[" + secret + "] %s cannot import %s: " + why(e));' % (owner, t)
     if site == "top":
         return ['try { import "%s"; %s } catch e { %s }' % (t, ok % (owner, t), err)]
     if site == "alias":
@@ -77,7 +79,7 @@ def reference(graph, main_imports):
         spec = graph[name]
         out.append("enter %s" % name)
         out.append("%s: importer globals are private" % name)
-        out.append("%s sees builtins true" % name)
+        out.append("%s sees builtins true true" % name)
         out.append("%s names <class StopIter><class Error><class TypeError><class ImportError><class Iter>" % name)
         for t, site in spec["imports"]:
             do_import(name, t, site)
@@ -114,7 +116,7 @@ def reference(graph, main_imports):
         if e is None:
             out.append("%s sees %s" % (owner, t))
         else:
-            out.append("%s cannot import %s: %s" % (owner, t, e))
+            out.append("[%s-secret] %s cannot import %s: %s" % (owner, owner, t, e))
 
     for t, site in main_imports:
         do_import("main", t, site)
@@ -123,7 +125,7 @@ def reference(graph, main_imports):
 
 
 def main_source(main_imports):
-    L = [WHY, 'var main_only = "only in main";', 'var secret = "main-secret";']
+    L = [WHY, 'var main_only = "only in main";', 'var secret = "main-secret";', 'var clock = "rebound in main";']
     for t, site in main_imports:
         L += import_stmt("main", t, site)
     L.append('print("main secret " + secret);')
